@@ -61,3 +61,14 @@ Theorem C11_response_tags : forall d rq code,
   (101 <= code <= 299 -> r_contact (create_response d rq code) = Some (d_local_contact d)) /\
   r_record_route (create_response d rq code) = q_record_route rq.
 Proof. exact response_tags. Qed.
+
+(* forks: one builder answers every dialog-creating response of its INVITE; each dialog carries the To-tag of its own response,
+   so two forks never share the (Call-ID, peer tag, local tag) identity the dialog layer keys on *)
+Theorem C11_fork_own_peer_tag : forall b rp d, from_response b rp = Some d ->
+  d_peer_tag d = p_to_tag rp /\ d_call_id d = b_call_id b /\ d_local_tag d = b_local_tag b.
+Proof. exact fork_own_tag. Qed.
+
+Theorem C11_forks_distinct : forall b rp1 rp2 d1 d2,
+  from_response b rp1 = Some d1 -> from_response b rp2 = Some d2 -> p_to_tag rp1 <> p_to_tag rp2 ->
+  (d_call_id d1, d_peer_tag d1, d_local_tag d1) <> (d_call_id d2, d_peer_tag d2, d_local_tag d2).
+Proof. exact forks_distinct. Qed.
